@@ -116,7 +116,8 @@ Theorem C13_refuted_retry_jitter : exists c, refutes 8 c. Proof. exact refuted_r
 Theorem C13_refuted_builder_template : exists c, refutes 9 c. Proof. exact refuted_builder_template. Qed.
 Theorem C13_refuted_topic_index : exists c, refutes 10 c. Proof. exact refuted_topic_index. Qed.
 Theorem C13_refuted_flow_namespace : exists c, refutes 11 c. Proof. exact refuted_flow_namespace. Qed.
-Print Assumptions C13_refuted_flow_namespace.
+Theorem C13_refuted_stream_compress : exists c, refutes 12 c. Proof. exact refuted_stream_compress. Qed.
+Print Assumptions C13_refuted_stream_compress.
 
 (** non-vacuity: the hypotheses of the [accepted] theorems are satisfiable *)
 Example C13_nonvacuous : exists o raw g, accepted o "filter" "RateLimiter" raw g /\ aget "urls" g <> [].
